@@ -95,6 +95,9 @@ def minimise(desc, cls, still_fails, budget=80, wall_s=60.0):
     for h_i, h in enumerate(cur.get("history") or []):
         if isinstance(h, dict) and h.get("mode") not in (None, "serial"):
             attempt(f"history[{h_i}] serial", lambda d, h_i=h_i: (d["history"][h_i].pop("mode"), d["history"][h_i].pop("workers", None)))
+    for h_i, h in enumerate(cur.get("history") or []):
+        if isinstance(h, dict) and h.get("reuse_object"):
+            attempt(f"history[{h_i}]: a separate Task object", lambda d, h_i=h_i: d["history"][h_i].pop("reuse_object"))
     if cur.get("debug"):
         attempt("debug off", lambda d: d.__setitem__("debug", False))
     # 4. configuration
